@@ -189,6 +189,17 @@ def check_fresh_defaults(ctx):
                               for c_ in (an.ft(f2).class_spec(x.args[1], {}) or [])}
                     if not (recursive and {"list", "dict"} <= kinds_):
                         return False
+                    # ... and it has no shallow way out for a list / dict: a return of `value.copy()` / copy.copy(value) /
+                    # type(value)(value) hands back a container whose nested lists and dicts are still the declared default's
+                    ps_ = set(f2.positional_params)
+                    for x in ast.walk(f2.node):
+                        if isinstance(x, ast.Return) and isinstance(x.value, ast.Call):
+                            c_ = x.value
+                            shallow_ = (isinstance(c_.func, ast.Attribute) and c_.func.attr == "copy" and not c_.args and isinstance(c_.func.value, ast.Name) and c_.func.value.id in ps_) \
+                                or (ast.unparse(c_.func) in ("copy.copy", "list", "dict") and len(c_.args) == 1 and isinstance(c_.args[0], ast.Name) and c_.args[0].id in ps_) \
+                                or (isinstance(c_.func, ast.Call) and ast.unparse(c_.func.func) == "type")
+                            if shallow_:
+                                return False
                 return bool(tgs)
             def fresh_leaf(v):
                 if isinstance(v, ast.Subscript) and isinstance(v.slice, ast.Slice) and v.slice.lower is None and v.slice.upper is None:
